@@ -215,7 +215,15 @@ class Play:
                 self.L.append(f"qc {q} sig={q}s view={self.curview} hash={self.cur}")
             elif kind == "bad-qc-relabel":
                 self.sigset(q + "s", list(zip(ps, src))[:self.q])
-                self.L.append(f"qc {q} sig={q}s view={max(v - 1, self.curview + 1)} hash={self.cur}")
+                # a genuine quorum signature under another view: above the certified block's view, or — a
+                # certificate that UNDERSTATES its view — below it
+                nv = max(v - 1, self.curview + 1) if rng.random() < 0.5 or self.curview < 1 else rng.randrange(0, self.curview)
+                self.L.append(f"qc {q} sig={q}s view={nv} hash={self.cur}")
+                if nv < self.curview and self.curqc in self.qcs:
+                    # the replica is already in the proposal's view (it has seen the genuine certificate)
+                    sx = self.fresh("sl")
+                    self.L.append(f"si {sx} qc={self.curqc} tc=- agg=-")
+                    self.L.append(f"deliver newview {sx} from={rng.choice(ps)}")
             else:
                 self.L.append(f"qc {q} sig=nil view={self.curview} hash={self.cur}")
             qc = q
@@ -343,13 +351,24 @@ class Play:
     def inject_newview(self, v):
         rng = self.rng
         x = self.fresh("nv")
-        kind = rng.choice(["stale-qc", "forged-tc", "nil-tc", "nil-agg", "good-old", "relabel-qc", "genesis-relabel"])
+        kind = rng.choice(["stale-qc", "forged-tc", "nil-tc", "nil-agg", "good-old", "relabel-qc", "genesis-relabel", "dup-apart-tc"])
         ps = self.puppets()
+        if kind == "dup-apart-tc" and (len(ps) < 2 or self.q < 3):
+            kind = "forged-tc"
         if kind == "stale-qc":
             self.L.append(f"si {x} qc={rng.choice(self.qcs)} tc=- agg=-")
         elif kind == "forged-tc":
             self.L.append(f"sign {ps[0]} view:{v + 3} {x}v")
             self.sigset(x + "s", [(p, x + "v") for p in ps[:self.q]])
+            self.L.append(f"tc {x}t sig={x}s view={v + 3}")
+            self.L.append(f"si {x} qc={self.curqc} tc={x}t agg=-")
+        elif kind == "dup-apart-tc":
+            # genuine view signatures of FEWER than a quorum of replicas, repeated with another signer in
+            # between (a, b, a, …) so that no two equal signers are neighbours
+            self.L.append(f"sign {ps[0]} view:{v + 3} {x}va")
+            self.L.append(f"sign {ps[1]} view:{v + 3} {x}vb")
+            ents = [(ps[0], x + "va") if i % 2 == 0 else (ps[1], x + "vb") for i in range(self.q)]
+            self.sigset(x + "s", ents)
             self.L.append(f"tc {x}t sig={x}s view={v + 3}")
             self.L.append(f"si {x} qc={self.curqc} tc={x}t agg=-")
         elif kind == "nil-tc":
@@ -366,7 +385,7 @@ class Play:
             self.L.append(f"si {x} qc={x}q tc=- agg=-")
         else:
             self.L.append(f"si {x} qc={self.curqc} tc=- agg=-")
-        inert = " expect=inert" if kind in ("forged-tc", "nil-tc", "nil-agg") and self.q >= 2 else ""
+        inert = " expect=inert" if kind in ("forged-tc", "nil-tc", "nil-agg", "dup-apart-tc") and self.q >= 2 else ""
         self.L.append(f"deliver newview {x} from={rng.choice(ps)}{inert}")
 
     def run(self, nviews):
